@@ -7,7 +7,8 @@ import ast
 from ..linform import lin, show_lin
 from ..program import AnalysisError
 from ..rules import calls, is_call, is_mcall, mcalls, mentions, mentions_any
-from ..terms import C, Evaluator, G, P, is_t, mk_proj, show, subterms, mk_cmp, mk_phi
+from ..finite import Unrecognised, ev_int
+from ..terms import C, Evaluator, G, P, is_t, mk_elem, mk_proj, show, subterms, mk_cmp, mk_phi
 from .common import Obs, arms_of, call0, choices_of, cond_has, ctor_fields, is_zero, retval_of, score_of, tuple_n
 
 MOD = "generative_functions/static.py"
@@ -54,38 +55,72 @@ def analyse(obs: Obs, prog):
     # Addresses are hierarchical ("x", ("x",) and everything below "x" are one sub-tree): "the same address twice" must be judged on normalised PATHS, by a
     # prefix test against everything visited so far - a raw `addr in self.traces` misses "x" vs ("x", "y") (double-counted score, later a crash in get_choices).
     # The test lives in a helper (found by what it does) that record calls BEFORE writing, and that the assess handler calls as well (assess never records).
-    def _is_visit(fn):
-        src_ok = {"norm": False, "loop": False, "raise": False, "mark": False}
-        for n in ast.walk(fn):
-            if isinstance(n, ast.IfExp) and "isinstance" in ast.unparse(n.test) and "tuple" in ast.unparse(n.test):
-                src_ok["norm"] = True
-            if isinstance(n, ast.For):
-                for m_ in ast.walk(n):
-                    if isinstance(m_, ast.If) and isinstance(m_.test, ast.Compare) and len(m_.test.ops) == 1 and isinstance(m_.test.ops[0], ast.Eq) \
-                            and isinstance(m_.test.left, ast.Subscript) and isinstance(m_.test.left.slice, ast.Slice) and isinstance(m_.test.comparators[0], ast.Subscript) \
-                            and isinstance(m_.test.comparators[0].slice, ast.Slice) and ast.unparse(m_.test.left.slice) == ast.unparse(m_.test.comparators[0].slice) \
-                            and any(isinstance(x, ast.Raise) and "AddressReuse" in ast.unparse(x) for x in ast.walk(m_)):
-                        src_ok["loop"] = src_ok["raise"] = True
-            if isinstance(n, ast.Call) and isinstance(n.func, ast.Attribute) and n.func.attr in ("append", "add") and len(n.args) == 1 and isinstance(n.args[0], ast.Name):
-                # what is remembered is the NORMALISED path (the variable the prefix test compares), not the raw address
-                norm_names = {t.id for a_ in ast.walk(fn) if isinstance(a_, ast.Assign) and isinstance(a_.value, ast.IfExp) and "tuple" in ast.unparse(a_.value.test) for t in a_.targets if isinstance(t, ast.Name)}
-                if n.args[0].id in norm_names:
-                    src_ok["mark"] = True
-        has_min = any(isinstance(n, ast.Call) and ast.unparse(n.func) == "min" and all("len(" in ast.unparse(a_) for a_ in n.args) for n in ast.walk(fn))
-        return all(src_ok.values()) and has_min
-    visit_helpers = [hn for hn, hf in SH.methods.items() if hn != "record" and _is_visit(hf)]
+    # Decided on the derived terms: the guard of `raise AddressReuse` is evaluated (E4, finite) for every pair of a small domain of visited paths and addresses
+    # and must be exactly the prefix relation on normalised paths, however it is spelled (min-length slices, sorted by length, any(...) over a helper, ...).
+    _PATHS = [("a",), ("b",), ("a", "b"), ("a", "c"), ("b", "a"), ("a", "b", "c")]
+    _ADDRS = _PATHS + ["a", "b"]
+
+    def _reuse_test(res):
+        """-> (ok, text) for the AddressReuse raise(s) of an evaluated method; ok None when there is no such raise"""
+        hits = [(c, x) for c, x in res.raises if (is_t(x, "ctor") and x[1] == "AddressReuse") or is_call(x, "AddressReuse")]
+        if not hits:
+            return None, "no raise AddressReuse"
+        if len(hits) != 1:
+            return False, f"{len(hits)} AddressReuse raises"
+        conds, _exc = hits[0]
+        it, pred = None, []
+        for c, pol in conds:
+            if is_t(c, "iter") and pol and it is None:
+                it = c[1]
+            elif is_t(c, "call") and c[1] == G("any") and pol and len(c[2]) == 1 and is_t(c[2][0], "fam") and it is None and not is_t(c[2][0][1], "tuple"):
+                it, pred = c[2][0][1], pred + [(c[2][0][2], True)]
+            else:
+                pred.append((c, pol))
+        if it is None or not pred:
+            return False, "the raise is not guarded by a test against every path visited so far"
+        marks = [e for e in res.env.get("__effects__", []) if is_t(e, "call") and is_t(e[1], "attr") and e[1][2] in ("append", "add") and e[1][1] == it and len(e[2]) == 1]
+        if len(marks) != 1:
+            return False, f"{show(it)} is tested but the visited path is not remembered in it"
+        norm = lambda a_: a_ if isinstance(a_, tuple) else (a_,)
+        bad = []
+        try:
+            for addr in _ADDRS:
+                env_ = {P("addr"): addr}
+                if ev_int(marks[0][2][0], env_) != norm(addr):
+                    bad.append(f"addr={addr!r}: remembers {ev_int(marks[0][2][0], env_)!r}, not the normalised path")
+                for seen in _PATHS:
+                    env_ = {P("addr"): addr, mk_elem(it): seen}
+                    got = all(bool(ev_int(c, env_)) == pol for c, pol in pred)
+                    k = min(len(seen), len(norm(addr)))
+                    if got != (seen[:k] == norm(addr)[:k]):
+                        bad.append(f"visited {seen!r}, addr {addr!r}: raises={got}")
+        except Unrecognised as e:
+            raise AnalysisError(f"address-reuse test: unrecognised predicate form {e}")
+        except (TypeError, IndexError) as e:
+            return False, f"the test is ill-typed on paths: {e}"
+        return (not bad), ("; ".join(bad[:3]) if bad else f"prefix relation on normalised paths ({len(_ADDRS) * len(_PATHS)} pairs evaluated), path remembered in {show(it)}")
+
+    okr, txt_r = _reuse_test(r)
+    okr = bool(okr)
+    # helpers that perform the test (by what they do): used for the statement-order obligations
+    visit_helpers = []
+    for hn, hf in SH.methods.items():
+        if hn == "record" or not any(isinstance(x, ast.Raise) for x in ast.walk(hf)):
+            continue
+        try:
+            if _reuse_test(Evaluator(prog).eval_fn(hf, SH.module, SH))[0]:
+                visit_helpers.append(hn)
+        except AnalysisError:
+            pass
     body = SH.methods["record"].body
     def _calls_helper(st):
         return any(isinstance(x, ast.Call) and isinstance(x.func, ast.Attribute) and x.func.attr in visit_helpers and ast.unparse(x.func.value) == "self" for x in ast.walk(st))
-    idx_if = next((i for i, s_ in enumerate(body) if _calls_helper(s_)), None)
+    idx_if = next((i for i, s_ in enumerate(body) if _calls_helper(s_) or any(isinstance(x, ast.Raise) and "AddressReuse" in ast.unparse(x) for x in ast.walk(s_))), None)
     idx_w = next((i for i, s_ in enumerate(body) if isinstance(s_, ast.Assign) and isinstance(s_.targets[0], ast.Subscript)), None)
-    inline = _is_visit(SH.methods["record"])
-    okr = bool(visit_helpers) and idx_if is not None or inline
-    obs.add({"C22"}, "ADDR-UNIQUE", "StaticHandler.record/raise", okr, construct="address-reuse test",
-            derived=f"hierarchical visit helper(s): {visit_helpers}; record {'calls it' if idx_if is not None else 'does not call it'}" if not inline else "prefix test inline in record",
+    obs.add({"C22"}, "ADDR-UNIQUE", "StaticHandler.record/raise", okr, construct="address-reuse test", derived=txt_r,
             expected="raise AddressReuse(addr) iff the normalised path of addr is a prefix of / has as a prefix / equals a path visited before", where=W(SH, "record"))
     obs.add({"C22", "C01"}, "ADDR-UNIQUE", "StaticHandler.record/write", okw, derived=wrote, expected="self.traces[addr] = trace", where=W(SH, "record"))
-    obs.add({"C22"}, "ADDR-UNIQUE", "StaticHandler.record/order", inline or (idx_if is not None and idx_w is not None and idx_if < idx_w), derived=f"test@{idx_if} write@{idx_w}", expected="test before write", where=W(SH, "record"))
+    obs.add({"C22"}, "ADDR-UNIQUE", "StaticHandler.record/order", idx_if is not None and idx_w is not None and idx_if < idx_w, derived=f"test@{idx_if} write@{idx_w}", expected="test before write", where=W(SH, "record"))
 
     # every write of the handlers' trace table goes through record (the only place the reuse test runs): no `self.traces[...] = ...` anywhere else
     direct = []
@@ -189,8 +224,9 @@ def analyse(obs: Obs, prog):
             hb = H.methods["handle_trace"].body
             i_vis = next((i for i, s_ in enumerate(hb) if any(isinstance(x, ast.Call) and isinstance(x.func, ast.Attribute) and x.func.attr in (visit_helpers + ["record"]) and ast.unparse(x.func.value) == "self" for x in ast.walk(s_))), None)
             i_cal = next((i for i, s_ in enumerate(hb) if any(isinstance(x, ast.Attribute) and x.attr == "assess" for x in ast.walk(s_))), None)
-            obs.add({"C22", "C02"}, "ADDR-UNIQUE", inst + "/visit", i_vis is not None and i_cal is not None and i_vis < i_cal, construct="address-reuse test under assess",
-                    derived=f"visit@{i_vis} callee assess@{i_cal}", expected="assess marks each visited address (self.visit(addr)) before assessing the callee: a duplicated address raises AddressReuse instead of counting its density twice", where=w)
+            okv_, txtv_ = _reuse_test(r)
+            obs.add({"C22", "C02"}, "ADDR-UNIQUE", inst + "/visit", bool(okv_) and i_vis is not None and i_cal is not None and i_vis < i_cal, construct="address-reuse test under assess",
+                    derived=f"{txtv_}; visit@{i_vis} callee assess@{i_cal}", expected="assess marks each visited address (self.visit(addr)) before assessing the callee: a duplicated address raises AddressReuse instead of counting its density twice", where=w)
             sc = env.get("self.score")
             okacc = sc == ("bin", "+", sattr("score"), mk_proj(cal, 0))
             obs.add({"C02", "C01"}, "SCORE-AGG", inst + "/accumulate", okacc, derived=sc, expected="self.score += score returned by the callee's assess", where=w)
